@@ -7,6 +7,7 @@ import AdaVerif.Lemmas.ParseBase
 import AdaVerif.Lemmas.ParseAgg
 import AdaVerif.Lemmas.ParseAggBase
 import AdaVerif.Lemmas.ParseValid
+import AdaVerif.Props.C04
 import AdaVerif.Props.C10
 /-
 C01 — Parsing conforms to the WHATWG URL Standard for every input and base.
@@ -149,6 +150,55 @@ theorem parser_chain_partial (idna : Idna) (bi input : Bytes) (hid : ∀ d, HP.I
     refine ⟨⟨b, rfl, rfl, ?_⟩, ⟨b, rfl, rfl, ?_⟩⟩
     · exact PB.machineB_spec idna b ⟨hinv, hseg⟩ input hid (hci b hp)
     · exact aggregator_parser_with_base_partial idna b hinv hseg hch input hid (hci b hp)
+
+/-- **what a user of the default type sees**: after `ada::parse(input)` the buffer of the `url_aggregator` - which is what
+    `get_href()` returns - is the Standard's serialisation of the Standard's parse result, byte for byte, and parsing
+    fails exactly when the Standard's parser fails.  (Composition of `aggregator_parser_no_base_partial`, C19's
+    `parse_inv`, `parse_noSlash`, and C07's `standard_href_is_layout`.) -/
+theorem aggregator_href_is_standard_partial (idna : Idna) (input : Bytes) (hid : ∀ d, HP.IdnaAt idna d)
+    (hclean : HS.bracketClean (ParseSpecial.schemeSpecial input) false (ParseSpecial.hostStart input) = true) :
+    (ParseAgg.parseNoBaseA idna input).map (·.buf) = (parse idna input none).map Url.href := by
+  rw [aggregator_parser_no_base_partial idna input hid hclean]
+  cases hp : parse idna input none with
+  | none => rfl
+  | some u =>
+    have hinv := parse_inv idna input none u (by intro x hx; cases hx) hp
+    have hseg := PV.parse_noSlash idna input u hp
+    have ok := AggL.credOk_of_recInv u hinv
+    have hpb : ∀ p, u.port = some p → p < 65536 := by
+      intro p hpp
+      have h := hinv
+      simp only [RecInv, Bool.and_eq_true] at h
+      have := h.1.2
+      rw [hpp] at this
+      simp only [portOkB, Bool.and_eq_true, decide_eq_true_eq] at this
+      omega
+    simp only [Option.map_some]
+    rw [UR.toL_recOf u ok.hostless hpb hseg, AggL.href_eq_layout u ok.hostless]
+
+/-- … and of `ada::url`: `get_href()` (fast or general serializer) on the parsed object is the Standard's serialisation -/
+theorem url_href_is_standard_partial (idna : Idna) (input : Bytes) (hid : ∀ d, HP.IdnaAt idna d)
+    (hclean : HS.bracketClean (ParseSpecial.schemeSpecial input) false (ParseSpecial.hostStart input) = true) (u : Url)
+    (hp : parse idna input none = some u) :
+    ParseSpecial.parseNoBase idna input = .ok (UR.recOf u) ∧ UrlRec.getHref (UR.recOf u) = u.href := by
+  have h1 := PS.parseNoBase_spec idna input hid hclean
+  rw [hp] at h1
+  refine ⟨h1, ?_⟩
+  have hinv := parse_inv idna input none u (by intro x hx; cases hx) hp
+  have hseg := PV.parse_noSlash idna input u hp
+  have ok := AggL.credOk_of_recInv u hinv
+  have g : C04.Good u := ⟨hinv, hseg⟩
+  have hrk : C04.RecOk (UR.recOf u) := by
+    intro hh
+    have : u.host = none := by cases h : u.host <;> simp_all [UR.recOf]
+    exact ok.hostless this
+  have hgen : UrlRec.getHrefGeneral (UR.recOf u) = u.href := by
+    rw [C04.href_eq_layout _ hrk, (C04.view_of_good u g).1, AggL.href_eq_layout u ok.hostless]
+  unfold UrlRec.getHref
+  split
+  · rename_i hf
+    rw [C04.fast_eq_general _ hf, hgen]
+  · exact hgen
 
 theorem bracket_condition_plain_base (b : UrlRec.Rec) (input : Bytes) (h : (0x5B : UInt8) ∉ input) :
     HS.bracketClean (ParseSpecial.hostStartB b input).1 false (ParseSpecial.hostStartB b input).2 = true :=
